@@ -208,6 +208,8 @@ def run(ctx: Ctx):
     # log_prob accepts every shape sample() returns: value = sample_shape + batch_shape + event_shape with a possibly
     # empty sample_shape, so on the branch for batch_shape of length k the smallest admissible rank is k + 1
     _log_prob_min_rank(ctx, dist, lp, rel)
+    # the cache key (samples) is stored only together with its value (log-probabilities)
+    _cache_key_with_value(ctx, dist, lp, rel)
     # every scoring call of the wrapper starts the model from a fresh copy of the initial state (siblings agree)
     lmc = [c for c in own_calls(lp.node) if u(c.func) == "self.random_walk.lm"]
     col.ob("G1", "S4", f"{rel}::SequentialLanguageModelDistribution.log_prob::lm(hist, initial_state.copy())",
@@ -301,9 +303,60 @@ def _log_prob_min_rank(ctx: Ctx, dist, lp, rel: str):
            f"whenever argument validation is on", rel, vs[0].line, sample=[u(c)[:80] for c in bc])
 
 
+def _cache_key_with_value(ctx: Ctx, dist, lp, rel: str):
+    """log_prob serves `self.<V>` when `self.<K> == value`. K and V are therefore one record: in every method, between a
+    store to K and the following store to V no call may intervene (a call can raise and leave the new key paired with the
+    old value, which the next call then serves), and K is never stored without V."""
+    col = ctx.col
+    vname = lp.params[1].name
+    K = V = None
+    for n in own_nodes(lp.node):
+        if isinstance(n, ast.If):
+            keys = [c.left.attr for c in ast.walk(n.test) if isinstance(c, ast.Compare) and isinstance(c.left, ast.Attribute)
+                    and u(c.left.value) == "self" and isinstance(c.ops[0], ast.Eq) and u(c.comparators[0]) == vname]
+            rets = [st.value.attr for st in n.body if isinstance(st, ast.Return) and isinstance(st.value, ast.Attribute)
+                    and u(st.value.value) == "self"]
+            if keys and rets:
+                K, V = keys[0], rets[0]
+    if not K:
+        raise AnalysisError("C07: the cache-hit test of log_prob was not found")
+    nst = 0
+    for fl in dist.methods.values():
+        for m in fl:
+            body = [n for n in own_nodes(m.node) if isinstance(n, ast.stmt)]
+            stores = {}
+            for n in body:
+                if isinstance(n, ast.Assign):
+                    for t in n.targets:
+                        if isinstance(t, ast.Attribute) and u(t.value) == "self" and t.attr in (K, V):
+                            stores.setdefault(t.attr, []).append(n)
+            for ks in stores.get(K, []):
+                nst += 1
+                same = ks in stores.get(V, [])
+                later = sorted((v for v in stores.get(V, []) if v.lineno > ks.lineno), key=lambda v: v.lineno)
+                ok, why = True, ""
+                if not same:
+                    if not later:
+                        ok, why = False, f"`self.{K}` is stored without `self.{V}`"
+                    else:
+                        between = [n for n in body if ks.lineno < n.lineno < later[0].lineno and not isinstance(n, (ast.If,))]
+                        calls = [c for n in between for c in ast.walk(n) if isinstance(c, ast.Call)]
+                        tests = [c for n in body if isinstance(n, ast.If) and ks.lineno < n.lineno < later[0].lineno
+                                 for c in ast.walk(n.test) if isinstance(c, ast.Call) and call_name(c) != "len"]
+                        if calls or tests:
+                            ok, why = False, (f"{len(calls) + len(tests)} call(s), e.g. `{u((calls + tests)[0])[:60]}`, run between the store "
+                                              f"of `self.{K}` (line {ks.lineno}) and of `self.{V}` (line {later[0].lineno})")
+                col.ob("G10", "S4", f"{rel}::{m.qualname}::cache-key-stored-with-its-value", ok,
+                       f"{why}: if one of them raises, the new samples stay paired with the previous log-probabilities and the "
+                       f"next log_prob of the same value returns those", rel, ks.lineno, sample=dict(key=K, value=V))
+    col.floor("cache_key_stores", nst, 3)
+
+
 def _mutants():
     from selftest.mutate import Mutant as M
     _extra = [
+        M("cache-key-before-scoring", "_decoding.py", "orig_value = value\n        if len(self.batch_shape):", "orig_value = value\n        if self.cache_samples:\n            self._samples_cache = value\n        if len(self.batch_shape):", "cache-key-stored-with-its-value"),
+        M("packed-kernel-raw-negative-dim", "_decoding.py", "dim = (hyp_dim + dim) % hyp_dim\n    logits, batch_sizes, sidxs, uidxs = logits", "logits, batch_sizes, sidxs, uidxs = logits", "negative-dimension-normalised-before-arithmetic"),
         M("log-prob-needs-sample-dim", "_decoding.py", "value = value.reshape(-1, batch_size, value.size(-1)).transpose(1, 2)", "value = value.flatten(end_dim=-3).transpose(1, 2)", "accepts-unbatched-sample-shape[batch_shape-len=1]"),
         M("log-prob-transposes-a-vector", "_decoding.py", "value = value.reshape(-1, value.size(-1))\n            hist = value.T", "hist = value.T", "accepts-unbatched-sample-shape[batch_shape-len=0]"),
         M("validation-pins-sequence-length", "_decoding.py", "exp_shape = tuple(self.batch_shape)\n        act_shape = tuple(value.shape[:-1])", "exp_shape = tuple(self.batch_shape + self.event_shape)\n        act_shape = tuple(value.shape)", "sequence-dimension-left-to-the-support-check"),
@@ -347,7 +400,8 @@ MANIFEST = dict(
         "conditions of 'identically for padded and packed input', 'up to and including the first end-of-sequence' and of "
         "the three code paths agreeing; the numeric agreement itself is not decided."),
     level_note="Trusted: python ast; documented exception that eos is ignored for packed input. F26 (log_prob of a sample without "
-               "sample dimensions raised) and F27 (validation rejected early-ending samples) were found and repaired.",
+               "sample dimensions raised), F27 (validation rejected early-ending samples), F30 (packed kernel with a negative dim) and "
+               "F31 (sample cache written before scoring) were found and repaired; F28 (cache stores aliases) is a known finding.",
     technique="static analysis: sibling-implementation agreement (step fingerprints), neutral-element tables, argument/slot binding, single-source attribute use, def-use version rule",
     design_ref="DESIGN.md section 4 C07",
 )
